@@ -363,6 +363,9 @@ class Builder:
                 c, a, b = args[1], args[0], args[2]
             else:
                 c, a, b = args
+            cat = c.as_atom()
+            if cat is not None:
+                nf.BOOLEAN_ATOMS.add(cat.uid)
             return self.ite(c, lambda _b: a, lambda _b: b)
         if n in ("logical_and",) and len(args) == 2:
             return mk_bool("and", *args)
